@@ -68,13 +68,14 @@ type oracle struct {
 	casPending      map[[2]int]bool
 	staleRegress    bool
 	otherCkpts      [][]byte
+	rejectedKeys    map[[32]byte]*Item
 }
 
 func newOracle(w *World) *oracle {
 	return &oracle{w: w, gt: map[int]*groundTruth{}, admitted: map[[32]byte]int{},
 		itemsByKey: map[[32]byte]*Item{}, clockReadings: map[int64]bool{}, sigSeen: map[string][]byte{},
 		casLost: map[[2]int]int{}, lockOpsAfterLoss: map[[2]int]int{}, sctSeen: map[[32]byte]sctRec{},
-		intended: map[int64][]*ref.Entry{}, ackSeen: map[string][2]int64{}, casPending: map[[2]int]bool{}}
+		rejectedKeys: map[[32]byte]*Item{}, intended: map[int64][]*ref.Entry{}, ackSeen: map[string][2]int64{}, casPending: map[[2]int]bool{}}
 }
 
 func (o *oracle) truth(st *Store) *groundTruth {
@@ -747,6 +748,7 @@ func (o *oracle) checkAcks() {
 			o.v("C17", "multiple-outcomes", "sub %d got %d outcomes", s.ID, s.Returned)
 		}
 		o.checkOutcome(in, s)
+		o.checkChainOutcome(in, s)
 		if s.Err != nil {
 			if s.Item.ID >= 0 && !contains(w.failedItems, s.Item.ID) {
 				w.failedItems = append(w.failedItems, s.Item.ID)
@@ -810,6 +812,10 @@ func (o *oracle) checkAckNow(in *Instance, s *Submission, when string) bool {
 		e.IssuerKeyHash != want.IssuerKeyHash || !bytes.Equal(e.PreCert, want.PreCertificate) {
 		o.v("C02", "ack-wrong-leaf", "sub %d (item %d) acknowledged idx=%d ts=%d but the stored leaf is idx=%d ts=%d precert=%v certlen=%d (%s)",
 			s.ID, s.Item.ID, s.Index, s.Time, e.Index, e.Timestamp, e.IsPrecert, len(e.Cert), when)
+		if s.Source == "pool" || s.Source == "cache" {
+			// an acknowledgement served by deduplication that names an index which does not hold the entry (C07)
+			o.v("C07", "dedup-ack-wrong-leaf", "sub %d (item %d) was answered from %s with idx=%d ts=%d, but that leaf is another entry (%s)", s.ID, s.Item.ID, s.Source, s.Index, s.Time, when)
+		}
 		return false
 	}
 	if s.gotEntry != nil {
@@ -886,6 +892,9 @@ func (o *oracle) checkLeafCounts() {
 					id = it.ID
 				}
 				o.v("C07", "more-leaves-than-admissions", "item %d has %d leaves but was admitted %d times", id, cnt[k], o.admitted[k])
+				if it != nil && it.Spec != nil && o.admitted[k] == 0 {
+					o.v("C09", "rejected-chain-logged", "item %d (defect %q) was never accepted but has %d leaves", id, it.Spec.Defect, cnt[k])
+				}
 			}
 		}
 	}
